@@ -119,10 +119,26 @@ class AbsNode:
             return True
         if self.is_atom():
             return self._var() == other
-        raise Unsupported("== on an abstract compound node")
+        # AtLeast.__eq__ (type, id, equation bounds, value): opaque, but it implies equal ids
+        oid = getattr(other, "id", None)
+        if type(oid) is not SId:
+            return False
+        k = ctx().__dict__.setdefault("_abs_eq", {})
+        key = (self._fam.name, str(self._idx), repr(oid.t))
+        if key not in k:
+            k[key] = z3.Bool(fresh_name(f"eq.{self._fam.name}"))
+            ctx().axiom(z3.Implies(k[key], self._var().id.t == oid.t))
+        return lift(k[key])
 
     def __hash__(self):
         raise Unsupported("native hash of an abstract node")
+
+    def pyhash(self):
+        """model of hash(node) for the shims: the real variable.__hash__ on atoms, opaque on compounds"""
+        if self.is_atom():
+            from .shim import hash_
+            return hash_(self._var())
+        return self.sym("pyhash")
 
     def __repr__(self):
         return f"<{self._fam.name}[{self._idx}]>"
